@@ -32,7 +32,19 @@ def build_ann(entry):
         if not isinstance(a, _pt.ProFormaAnnotation):
             raise HarnessError(f"spec did not build a single annotation: {SP.render(sp)!r}")
     else:
-        a = N.denorm(SP.nf_of_spec(sp))
+        nf = SP.nf_of_spec(sp)
+        order = entry.get('order')
+        if order:
+            # same peptide, another storage order of the interval list / residue-mod dict
+            f = dict(nf[1])
+            if order.get('intervals') and f['intervals'] and len(order['intervals']) == len(f['intervals']):
+                f['intervals'] = [f['intervals'][i] for i in order['intervals']]
+            if order.get('internal') and f['internal']:
+                by = {str(k): [k, v] for k, v in f['internal']}
+                if sorted(by) == sorted(order['internal']):
+                    f['internal'] = [by[k] for k in order['internal']]
+            nf = ['ann', f]
+        a = N.denorm(nf)
     d = N.same(N.norm(a), SP.nf_of_spec(sp))
     if d is not None:
         # the object is not what the Spec says (parser/serializer territory, C01) - do not build on sand
